@@ -22,6 +22,7 @@
              without passing validate_geometric_cell_orientation").
 Not decided: convergence, equality with the unique Delaunay triangulation."""
 import flow
+import valueflow
 import gate
 import pair
 import tables
@@ -61,6 +62,7 @@ def run(ctx):
         _nodrop(ctx, cfg, prog, lv)
         _sameverts(ctx, cfg, prog, mod)
         _seedcover(ctx, cfg, prog, mod)
+        _seedsome(ctx, cfg, prog, mod)
         _postorient(ctx, cfg, prog, lv)
     return ctx.finish(EXPLANATION)
 
@@ -230,6 +232,110 @@ def _must_callers(prog, target, depth=3):
             break
     _MUST[key] = M
     return M
+
+
+SEED_PARAM_TY = 'std::option::Option<&[core::triangulation_data_structure::CellKey]>'
+FRESH_EMPTY = ('new', 'with_capacity', 'default', 'new_const')
+MAYBE_EMPTY = ('collect', 'from_iter', 'filter', 'retain', 'drain', 'take', 'split_off', 'clone_from', 'to_vec', 'into_vec')
+FILLS = ('push', 'extend', 'extend_from_slice', 'insert', 'append', 'insert_many', 'push_back', 'extend_from_within')
+
+
+def _seedsome(ctx, cfg, prog, mod):
+    """SEEDSOME: `Some(seeds)` restricts the flip repair *and* its post-condition verifier to the simplices around
+    the seed cells; an explicitly empty seed set makes both look at nothing and report success (`None` = global).
+    At every call that hands a `Some(slice)` to a function with an `Option<&[CellKey]>` seed parameter, the buffer
+    behind the slice is non-empty by construction: if the buffer local can come from an empty constructor
+    (`new` / `with_capacity` / `default`) or from a filtering collection (`collect`, `filter`, ...), then every path
+    from that definition to the `Some` passes a fill of the buffer (push / extend / a later whole assignment from
+    another value) or the non-empty edge of an `is_empty()` test on it.  Buffers taken from a callee's result
+    (`FlipInfo::new_cells`) are that callee's business."""
+    ctx.rule('SEEDSOME', 'a Some(seed cells) handed to the flip repair is non-empty by construction')
+    n = 0
+    for q, b in sorted(prog.bodies.items()):
+        if '::tests::' in q or not b.file.startswith('src/'):
+            continue
+        al = None
+        for bb, t in b.calls():
+            name = t.resolved or t.callee or ''
+            cb = prog.bodies.get(name)
+            if cb is None:
+                continue
+            for i in range(1, cb.nargs + 1):
+                if cb.locals[i].replace("'_ ", '').replace(' ', '') != SEED_PARAM_TY.replace(' ', '') or i - 1 >= len(t.args):
+                    continue
+                a = t.args[i - 1]
+                if a.place is None:
+                    continue
+                al = al or mod.aliases(q)
+                n += 1
+                # buffers behind the Some(..): locals of CellKey buffer type in the backward slice
+                leaves = valueflow.sources(b, al, a.place.local)
+                bufs = set()
+                take = {}      # buffer local -> blocks in which the slice handed on is taken from it
+                work = [a.place.local]
+                seen = set()
+                while work:
+                    l = work.pop()
+                    if l in seen:
+                        continue
+                    seen.add(l)
+                    ty = b.locals[l]
+                    if ('SmallVec<' in ty or 'std::vec::Vec<' in ty) and 'CellKey' in ty and not ty.startswith('&') and 'Option<' not in ty:
+                        bufs.add(l)
+                        continue
+                    for (dbb, didx, node) in b.defs.get(l, []):
+                        ops = node.args if didx == 'term' else (list(node.rv.ops) + ([] if node.rv.place is None else []))
+                        for o in ops:
+                            if o.place is not None:
+                                tt = al.operand_target(o)
+                                work.append(o.place.local)
+                                if tt is not None:
+                                    work.append(tt[0])
+                                for cand in [o.place.local] + ([tt[0]] if tt is not None else []):
+                                    cty = b.locals[cand]
+                                    if ('SmallVec<' in cty or 'std::vec::Vec<' in cty) and 'CellKey' in cty and \
+                                            not cty.startswith('&') and 'Option<' not in cty:
+                                        take.setdefault(cand, set()).add(dbb)
+                        if didx != 'term' and node.rv.place is not None:
+                            work.append(node.rv.place.local)
+                bad = []
+                for L in sorted(bufs):
+                    empties = []
+                    fills = set()
+                    for (dbb, didx, node) in b.defs.get(L, []):
+                        if didx == 'term':
+                            last = (node.callee or node.resolved or '').rsplit('::', 1)[-1]
+                            if last in FRESH_EMPTY or last in MAYBE_EMPTY:
+                                empties.append((dbb, last))
+                            else:
+                                fills.add(dbb)
+                        else:
+                            fills.add(dbb)          # whole assignment from another value
+                    if not empties:
+                        continue
+                    guards = set()
+                    for cbb, ct in b.calls():
+                        last = (ct.callee or ct.resolved or '').rsplit('::', 1)[-1]
+                        if not ct.args or ct.args[0].place is None:
+                            continue
+                        tt = al.operand_target(ct.args[0])
+                        if tt is None or tt[0] != L:
+                            continue
+                        if last in FILLS:
+                            fills.add(cbb)
+                        elif last == 'is_empty':
+                            guards |= flow.call_flow(b, cbb).err_edges     # false edge: not empty
+                    for (dbb, how) in empties:
+                        reach = flow.reach_edges(b, b.succs(dbb), avoid_edges=guards, avoid_blocks=fills - {dbb})
+                        if take.get(L, {bb}) & reach:
+                            bad.append('%s (local _%d from %s())' % (b.locals[L].split('<')[0].rsplit('::', 1)[-1], L, how))
+                ctx.ob('SEEDSOME', '%s|%s' % (b.root or q, name.rsplit('::', 1)[-1]), cfg, not bad,
+                       'seed argument of %s: %s' % (name.rsplit('::', 1)[-1],
+                           ('buffers behind it: %d, each filled or tested non-empty on every path' % len(bufs)) if not bad else
+                           'can be Some(<empty>) - %s reaches the call without a fill or a non-empty test: the repair and its '
+                           'post-condition verifier then examine nothing and report success on a non-Delaunay complex' % bad[:2]),
+                       site='%s:%d' % (b.file, t.line))
+    ctx.floor('calls handing seed cells to a repair function', 3, n, cfg)
 
 
 def _seedcover(ctx, cfg, prog, mod):
